@@ -132,6 +132,18 @@ def c03_plan(tier, seed):
     for v, nb in (("os-debug", 10), ("memfd-debug", 2), ("inproc-debug", 4)):
         for j in jobs(v, "c03", nb if tier == "quick" else nb * 3, c03_env, {"cases": 45 if tier == "quick" else 500}, timeout=1500):
             out.append(j)
+    out += c03_race_jobs(tier)
+    return out
+
+
+def c03_race_jobs(tier, modes=(0, 1, 2, 3), per_mode=2):
+    q = tier == "quick"
+    out = []
+    for m in modes:
+        for k in range(per_mode if q else per_mode * 2):
+            out.append({"variant": "os-debug" if k % 2 == 0 else "os-release", "family": "c03r", "batch": m + 4 * k, "nbatch": 16, "env": {},
+                        "opts": {"rounds": 60000 if q else 400000}, "timeout": 3000})
+    out.append({"variant": "inproc-debug", "family": "c03r", "batch": modes[0], "nbatch": 16, "env": {}, "opts": {"rounds": 20000 if q else 100000}, "timeout": 3000})
     return out
 
 
@@ -145,6 +157,8 @@ def c03_require(agg):
             need.append("no %s observed" % k)
     if st.get("action_child-exit", 0) + st.get("action_child-sigkill", 0) < 1:
         need.append("no sender handle was held by another process")
+    if st.get("race_rounds", 0) < 200000:
+        need.append("fewer than 200000 send-then-drop race rounds")
     return need
 
 
@@ -219,7 +233,14 @@ def c06_plan(tier, seed):
     q = tier == "quick"
     out = jobs("os-debug", "c06", 12 if q else 32, c06_env, {"cases": 12 if q else 150}, timeout=1800)
     out += jobs("inproc-debug", "c06", 3 if q else 8, None, {"cases": 12 if q else 150}, timeout=1800)
+    out += [j for j in c03_race_jobs(tier, modes=(1,), per_mode=2) if j["variant"] != "inproc-debug"]
     return out
+
+
+def c06_post(agg, results, workdir, inconclusive):
+    for v in agg["violations"]:
+        if not v["sig"].startswith("C06:"):
+            v["sig"] = "C06:via-" + v["sig"]
 
 
 def c06_require(agg):
@@ -257,6 +278,8 @@ def c07_plan(tier, seed):
     out = jobs("os-debug", "c07", 12 if q else 32, c07_env, {"cases": 14 if q else 200}, timeout=1800)
     g = jobs("os-debug", "c07", 14 if q else 34, c07_env, {"cases": 10 if q else 100, "global": 1}, timeout=1800)
     out += g[-2:]
+    sw = jobs("os-debug", "c07", 40, None, {"cases": 1200 if q else 6000, "small": 1}, timeout=3000)
+    out += sw[30:35] if q else sw[20:36]
     out += jobs("inproc-debug", "c07", 2 if q else 6, None, {"cases": 14 if q else 200}, timeout=1800)
     return out
 
@@ -858,6 +881,7 @@ PROPS = {
     },
     "C06": {
         "plan": c06_plan,
+        "post": c06_post,
         "require": c06_require,
         "level": "exploration",
         "level_text": "Exploration: receiver sets with 1..64 members (24 in quick) are driven through 2..5 rounds of bursts from 1..6 producer threads with members "
@@ -909,7 +933,9 @@ PROPS = {
                       "step by step against an executable handle-counting model (premature or missing Disconnected is flagged at the step), and each "
                       "history ends in a finale in which all remaining sender handles of one channel - direct, in transit inside undelivered messages, "
                       "held by threads and by another process - are released from 1..4 threads in seeded orders while a blocked, timed or polling "
-                      "observer watches; safety is decided on stamps, the wake-up clause by the logical hang rule (DESIGN 3.5).",
+                      "observer watches; safety is decided on stamps, the wake-up clause by the logical hang rule (DESIGN 3.5). A second family runs "
+                      "hundreds of thousands of tiny channels whose only sender sends one message and drops at once while the receiver polls "
+                      "(try_recv, timed, blocking, receiver set): the message must precede the disconnection.",
         "level_note": "Liveness is restated as bounded progress: after every release returned and every helper was joined/reaped the observer must "
                       "return; 'stuck' is only declared for a thread asleep in one system call with no CPU use. Cyclic channel families are excluded by the property.",
         "technique": "runtime monitoring: executable reference model replayed along stamped histories + racing finale with logical hang detection",
